@@ -32,6 +32,16 @@ def _atom(p):
     return None
 
 
+def _sx(lib, inline=()):
+    """summariser with ?: split into paths; the named small functions (getters, forwarding factories) are summarised in
+    place so that a helper local, a delegation or a ?: instead of an if does not change what the rule sees"""
+    sx = SymExec(fold_global=lib.global_value)
+    sx.split_cond = True
+    if inline:
+        sx.inliner = lambda name, nargs: next((g for g in lib.fns(name) if name.endswith(tuple(inline)) and len(g.params) == nargs), None)
+    return sx
+
+
 def run(cfg):
     R = Report('C17', cfg)
     lib = cxx.load_lib(cfg)
@@ -100,7 +110,7 @@ def run(cfg):
     ob('R1', f.name, f.loc, ok, why)
     # ---- compareTo
     f = lib.fn('ace_time::TimePeriod::compareTo')
-    s = SymExec(fold_global=lib.global_value).run(f.name, f.body, {})
+    s = _sx(lib).run(f.name, f.body, {})
     that = f.params[0][0]
     A = Poly.atom(('fn', 'ace_time::TimePeriod::toSeconds', (Poly.atom(('sym', 'this')).key(),)))
     B = Poly.atom(('fn', 'ace_time::TimePeriod::toSeconds', (Poly.atom(('sym', that)).key(),)))
@@ -121,22 +131,13 @@ def run(cfg):
             ok, why = False, 'returns %r when this - that is %s' % (got, 'negative' if v < 0 else 'positive' if v > 0 else 'zero')
             break
     ob('R1', f.name, f.loc, ok and n >= 3, why or 'fewer than three orderings distinguished')
-    # ---- negate (time_period_mutation) writes only the sign
-    f = lib.fn('ace_time::time_period_mutation::negate')
-    per = f.params[0][0]
-    calls = [e for e in all_exprs(f.body) if e.k == 'call' and e.a[1] is not None and path_of(e.a[1]) == per]
-    setters = [e for e in calls if e.a[2]]
-    ok = len(setters) == 1 and setters[0].a[0].endswith('TimePeriod::sign')
-    if ok:
-        v = Canon()(setters[0].a[2][0])
-        ok = v == -Poly.atom(('fn', 'ace_time::TimePeriod::sign', (Poly.atom(('sym', per)).key(),)))
-    ob('R1', f.name, f.loc, ok, 'negate() does not write exactly sign := -sign')
+    # (negate is decided with the other mutation helpers, by interpretation)
     # isError / sign application present
     ob('R1', 'ace_time::TimePeriod::fields', 'src/ace_time/TimePeriod.h',
        {n for n, _t, _x in lib.fields('ace_time::TimePeriod')} == {'mHour', 'mMinute', 'mSecond', 'mSign'}, 'TimePeriod fields changed')
     # ---- TimeOffset
     f = lib.fn('ace_time::TimeOffset::forHourMinute')
-    s = SymExec(fold_global=lib.global_value).run(f.name, f.body, {})
+    s = _sx(lib, inline=('TimeOffset::forMinutes',)).run(f.name, f.body, {})
     h, m = (Poly.atom(('sym', p)) for p, _ in f.params)
     ok = False
     for g, kind, res, eff in s.paths:
@@ -145,7 +146,7 @@ def run(cfg):
             ok = _P(a[2][0]) == h * Poly.const(60) + m
     ob('R2', f.name, f.loc, ok, 'forHourMinute is not 60*hour + minute')
     f = lib.fn('ace_time::TimeOffset::toHourMinute')
-    sx = SymExec(fold_global=lib.global_value)
+    sx = _sx(lib, inline=('TimeOffset::toMinutes',))
     sx.out_params = {p for p, t in f.params if t and '&' in t}
     s = sx.run(f.name, f.body, {})
     mm = Poly.atom(('sym', 'this.mMinutes'))
@@ -156,7 +157,7 @@ def run(cfg):
             e.get(f.params[1][0]) == Poly.atom(('tmod', mm.key(), Poly.const(60).key()))
     ob('R2', f.name, f.loc, ok, 'toHourMinute is not (minutes / 60, minutes % 60)')
     f = lib.fn('ace_time::TimeOffset::toSeconds')
-    s = SymExec(fold_global=lib.global_value).run(f.name, f.body, {})
+    s = _sx(lib, inline=('TimeOffset::toMinutes',)).run(f.name, f.body, {})
     ok = False
     for g, kind, res, eff in s.paths:
         l = _P(res).linear_in() if res is not None else None
@@ -188,29 +189,115 @@ def run(cfg):
         else:
             ok, why = False, 'wrap condition is %s, expected minutes + 15 > 960' % formula_str(g)
     ob('R2', f.name, f.loc, ok, why)
-    # ---- mutation helpers
-    table = [('ace_time::zoned_date_time_mutation::incrementYear', 'yearTiny', 'incrementMod', [100]),
-             ('ace_time::zoned_date_time_mutation::incrementMonth', 'month', 'incrementModOffset', [12, 1]),
-             ('ace_time::zoned_date_time_mutation::incrementDay', 'day', 'incrementModOffset', [31, 1]),
-             ('ace_time::zoned_date_time_mutation::incrementHour', 'hour', 'incrementMod', [24]),
-             ('ace_time::zoned_date_time_mutation::incrementMinute', 'minute', 'incrementMod', [60]),
-             ('ace_time::time_period_mutation::incrementMinute', 'minute', 'incrementMod', [60])]
-    for q, field, helper, consts in table:
-        f = lib.fn(q)
-        obj = f.params[0][0]
-        ob('R3', q, f.loc, *helper_shape(lib, f, obj, field, helper, consts))
-    fs = lib.fns('ace_time::time_period_mutation::incrementHour')
-    two = [f for f in fs if len(f.params) == 2]
-    one = [f for f in fs if len(f.params) == 1]
-    if not two or not one:
-        raise AnalysisError('anchor vanished: time_period_mutation::incrementHour overloads')
-    f = two[0]
-    ob('R3', f.name + '(period,limit)', f.loc, *helper_shape(lib, f, f.params[0][0], 'hour', 'incrementMod', [('param', f.params[1][0])]))
-    f = one[0]
-    calls = [e for e in all_exprs(f.body) if e.k == 'call' and e.a[0].endswith('time_period_mutation::incrementHour')]
-    ok = len(calls) == 1 and len(calls[0].a[2]) == 2 and _const(calls[0].a[2][1]) == 24 and path_of(calls[0].a[2][0]) == f.params[0][0]
-    ob('R3', f.name + '(period)', f.loc, ok, 'does not delegate with the modulus 24')
+    mutation_helpers(R, lib, ob)
     return R
+
+
+def mutation_helpers(R, lib, ob):
+    """Each helper is interpreted (E-SEQ, typed: integer locals, parameters and conversions wrap to their declared width,
+    reference parameters are bound to the caller's cell) on an abstract object for *every* value the field's type can
+    hold.  The accessors of the value class are the abstraction boundary (a getter reads the abstract field, a setter
+    stores its argument converted to its parameter type); ace_common::incrementMod / incrementModOffset are interpreted
+    through the bodies the shim gives them.  Afterwards exactly that field must hold "one more, wrapping from
+    modulus + offset - 1 to offset" computed in the field's own type, and no other field may have changed - however the
+    helper spells it (a call of the AceCommon helper, a wrapper of its own, explicit arithmetic)."""
+    from .aeval import AEval, AObj, CxxModule, Raised
+    from .cxx import int_type
+    mod = CxxModule(lib, ['ace_time::zoned_date_time_mutation::', 'ace_time::time_period_mutation::', 'ace_common::'])
+    classes = {'ace_time::ZonedDateTime': ['yearTiny', 'month', 'day', 'hour', 'minute', 'second'],
+               'ace_time::TimePeriod': ['hour', 'minute', 'second', 'sign']}
+    intr = {}
+    ftype = {}
+    epoch = lib.const('ace_time::LocalDate::kEpochYear')
+    for cls, flds in classes.items():
+        for fld in flds:
+            getters = [g for g in lib.fns('%s::%s' % (cls, fld)) if not g.params]
+            setters = [g for g in lib.fns('%s::%s' % (cls, fld)) if len(g.params) == 1]
+            if not getters or not setters:
+                raise AnalysisError('anchor vanished: accessor pair %s::%s' % (cls, fld))
+            gt, st = int_type(getters[0].ret), int_type(setters[0].params[0][1])
+            ftype[(cls, fld)] = st
+
+            def acc(ev, recv, args, fld=fld, gt=gt, st=st):
+                if not isinstance(recv, AObj):
+                    raise AnalysisError('abstract evaluation: accessor %s on %r' % (fld, recv))
+                if not args:
+                    return AEval._wrap(recv.attrs[fld], gt)
+                recv.attrs[fld] = AEval._wrap(args[0], st)
+                return None
+            intr['%s::%s' % (cls, fld)] = acc
+    # year() / year(y) of ZonedDateTime are views of yearTiny
+    intr['ace_time::ZonedDateTime::year'] = lambda ev, recv, args: (recv.attrs['yearTiny'] + epoch) if not args else recv.attrs.__setitem__('yearTiny', AEval._wrap(args[0] - epoch, (8, True)))
+
+    def ref(v, m, off, it):
+        d = AEval._wrap(v - off, it)
+        d = AEval._wrap(d + 1, it)
+        if d >= m:
+            d = 0
+        return AEval._wrap(d + off, it)
+
+    def domain(it):
+        bits, signed = it
+        return range(-(1 << (bits - 1)), (1 << (bits - 1)) - 1) if signed else range(0, 1 << bits)
+
+    def check(q, nargs, cls, fld, m, off, extra=()):
+        fs = [g for g in lib.fns(q) if len(g.params) == nargs]
+        if not fs:
+            raise AnalysisError('anchor vanished: %s with %d parameter(s)' % (q, nargs))
+        f = fs[0]
+        it = ftype[(cls, fld)]
+        bad = None
+        n = 0
+        for v in domain(it):
+            others = {x: 3 + i for i, x in enumerate(classes[cls]) if x != fld}
+            if 'sign' in others:
+                others['sign'] = 1
+            obj = AObj(dict(others, **{fld: v}), oid='obj', cls=cls)
+            try:
+                AEval(module=mod, intrinsics=intr, typed=True).call_function(q, [obj] + list(extra), chosen=mod.select(q, nargs, [None] * nargs))
+            except Raised as r_:
+                bad = '%s = %d: raises %s' % (fld, v, r_.what)
+                break
+            n += 1
+            want = ref(v, m, off, it)
+            changed = sorted(x for x in others if obj.attrs[x] != others[x])
+            if obj.attrs[fld] != want or changed:
+                bad = ('%s = %d becomes %s%s; expected %d (one more, wrapping at %d%s, in the %sint%d_t the field is stored in)'
+                       % (fld, v, obj.attrs[fld], (' and %s changes as well' % ', '.join(changed)) if changed else '', want, m, (' from %d' % off) if off else '',
+                          '' if it[1] else 'u', it[0]))
+                break
+        return f, bad, n
+
+    table = [('ace_time::zoned_date_time_mutation::incrementYear', 1, 'ace_time::ZonedDateTime', 'yearTiny', 100, 0),
+             ('ace_time::zoned_date_time_mutation::incrementMonth', 1, 'ace_time::ZonedDateTime', 'month', 12, 1),
+             ('ace_time::zoned_date_time_mutation::incrementDay', 1, 'ace_time::ZonedDateTime', 'day', 31, 1),
+             ('ace_time::zoned_date_time_mutation::incrementHour', 1, 'ace_time::ZonedDateTime', 'hour', 24, 0),
+             ('ace_time::zoned_date_time_mutation::incrementMinute', 1, 'ace_time::ZonedDateTime', 'minute', 60, 0),
+             ('ace_time::time_period_mutation::incrementMinute', 1, 'ace_time::TimePeriod', 'minute', 60, 0),
+             ('ace_time::time_period_mutation::incrementHour', 1, 'ace_time::TimePeriod', 'hour', 24, 0)]
+    for q, nargs, cls, fld, m, off in table:
+        f, bad, n = check(q, nargs, cls, fld, m, off)
+        c = q + ('(period)' if q.endswith('time_period_mutation::incrementHour') else '')
+        R.instance('R3', c, f.loc, '%d field values interpreted' % n)
+        if bad:
+            R.violation('R3', c, f.loc, bad)
+    q = 'ace_time::time_period_mutation::incrementHour'
+    for limit in (1, 2, 24, 100, 255):
+        f, bad, n = check(q, 2, 'ace_time::TimePeriod', 'hour', limit, 0, extra=(limit,))
+        R.instance('R3', q + '(period,limit)', f.loc, 'limit %d: %d field values interpreted' % (limit, n))
+        if bad:
+            R.violation('R3', q + '(period,limit)', f.loc, 'limit %d: %s' % (limit, bad))
+            break
+    # negate: only the sign, to its opposite
+    q = 'ace_time::time_period_mutation::negate'
+    f = lib.fn(q)
+    bad = None
+    for sg in (-1, 1):
+        obj = AObj({'hour': 3, 'minute': 4, 'second': 5, 'sign': sg}, oid='obj', cls='ace_time::TimePeriod')
+        AEval(module=mod, intrinsics=intr, typed=True).call_function(q, [obj], chosen=mod.select(q, 1, [None]))
+        if obj.attrs != {'hour': 3, 'minute': 4, 'second': 5, 'sign': -sg}:
+            bad = 'a period with sign %d becomes %r' % (sg, obj.attrs)
+    ob('R1', q, f.loc, bad is None, 'negate() does not write exactly sign := -sign: %s' % bad)
 
 
 def _const(e):
